@@ -515,3 +515,39 @@ def coqchk(module, timeout=2400):
     if m and "<none>" not in m.group(1):
         axioms = [a.strip() for a in m.group(1).split("\n") if a.strip()]
     return ok, axioms, raw
+
+
+# --------------------------------------------------------------------------
+# source fingerprints: adaptive depth, never an alarm
+# --------------------------------------------------------------------------
+
+def source_fingerprints():
+    from rustexpr import strip_comments
+    out = {}
+    root = os.path.join(REPO, "src")
+    for dp, _, fs in os.walk(root):
+        for f in fs:
+            if f.endswith(".rs"):
+                path = os.path.join(dp, f)
+                txt = strip_comments(open(path, errors="replace").read())
+                txt = re.sub(r"\s+", " ", txt)
+                out[os.path.relpath(path, REPO)] = hashlib.sha256(txt.encode()).hexdigest()
+    return out
+
+
+def changed_sources():
+    """source files whose text (comments and whitespace aside) differs from the recorded fingerprint"""
+    p = os.path.join(VERIF, "fingerprints.json")
+    if not os.path.exists(p):
+        return []
+    ref = json.load(open(p))["files"]
+    now = source_fingerprints()
+    return sorted(f for f in set(ref) | set(now) if ref.get(f) != now.get(f))
+
+
+def property_files(pid):
+    for line in open(os.path.join(VERIF, "properties.jsonl")):
+        rec = json.loads(line)
+        if rec["id"] == pid:
+            return rec.get("anchors", {}).get("files", [])
+    return []
